@@ -12,10 +12,11 @@ one() {
   m="$1"; V="$2"; dir="$3"
   name="$(basename "$m" .diff)"
   id="${name%%-*}"
-  log="$(timeout 1500 "$V/tools/mutant.sh" -t "$m" "$id" 2>&1)"
+  log="$(timeout 1500 "$V/tools/mutant.sh" -t "$m" "$id" 2>&1)"; trc=$?
   tests="fail"; echo "$log" | grep -q "^TESTS pass" && tests="pass"
   det="no"; echo "$log" | grep -q "exit=1" && det="yes"
   echo "$log" | grep -q "exit=2" && det="build-failure"
+  [ "$trc" = 124 ] && [ "$det" = no ] && det="timeout"
   wt_keys="$(echo "$log" | grep -o 'key=[^ ]*' | sort -u | head -4 | tr '\n' ' ')"
   printf "%s\t%s\t%s\t%s\t%s\n" "$name" "$id" "$tests" "$det" "$wt_keys" | tee "$dir/$name.row"
 }
